@@ -7,6 +7,9 @@ pub mod c10;
 pub mod c11;
 pub mod c12;
 pub mod c13;
+pub mod c14;
+pub mod c15;
+pub mod drv;
 pub mod qh;
 
 use crate::runner::{Ctx, Report};
@@ -21,6 +24,8 @@ pub fn run(ctx: &Ctx) -> Option<Report> {
         "C11" => c11::run(ctx),
         "C12" => c12::run(ctx),
         "C13" => c13::run(ctx),
+        "C14" => c14::run(ctx),
+        "C15" => c15::run(ctx),
         _ => return None,
     })
 }
@@ -34,6 +39,8 @@ pub fn replay(id: &str, engine: &str, case: &Value) -> Result<(), String> {
         "C11" => c11::replay(engine, case),
         "C12" => c12::replay(engine, case),
         "C13" => c13::replay(engine, case),
+        "C14" => c14::replay(engine, case),
+        "C15" => c15::replay(engine, case),
         _ => Err(format!("unknown property {}", id)),
     }
 }
